@@ -6,17 +6,20 @@
 (* for the stateful events, from the abstract register file the specification  *)
 (* itself maintains), and records every disagreement in `bad` instead of       *)
 (* blocking, so that the rest of the trace is still examined.                  *)
-EXTENDS TraceGroup, Json, IOUtils
+EXTENDS TracePair, Json, IOUtils
 Rec == ndJsonDeserialize(IOEnv.TRACE)
-VARIABLES l, bad
-vars == <<l, bad>>
+\* NB: variable names must not coincide with any LET-bound name of the (instantiated) Level-A modules: TLC then treats
+\* constant definitions such as GT as state-dependent and re-evaluates them at every use (measured: 1.5 s per pairing event)
+VARIABLES tpos, tbad
+vars == <<tpos, tbad>>
 Known(e) == e.op \in {"f.add", "f.sub", "f.mul", "f.neg", "f.inv", "f.pow", "f.is_zero", "f.is_even", "f.eq", "f.sqrt",
                       "f.from_slice", "f.try_from", "f.interpret", "f.from_str", "f.from_hash", "f.roundtrip",
                       "f.to_big_endian", "f.set_bit",
                       "f2.add", "f2.sub", "f2.mul", "f2.neg", "f2.parts", "f2.new", "f2.from_slice", "f2.eq", "f2.g2dbl",
                       "f2.laws", "f2.sqrt",
                       "g.add", "g.sub", "g.neg", "g.laws", "g.mul", "g.rmul", "g.modlaws", "g.eq", "g.normalize", "g.to_affine",
-                      "g.encode", "g.decode", "g.affine_new"}
+                      "g.encode", "g.decode", "g.affine_new",
+                      "gt.one", "gt.mul", "gt.eq", "gt.pow", "gt.inv", "gt.laws", "pair", "pair.laws", "prep.reuse"}
 Chk(e) == CASE e.op \in {"f.add", "f.sub", "f.mul"} -> ChkFBin(e)
             [] e.op = "f.neg" -> ChkFNeg(e)
             [] e.op = "f.inv" -> ChkFInv(e)
@@ -52,12 +55,22 @@ Chk(e) == CASE e.op \in {"f.add", "f.sub", "f.mul"} -> ChkFBin(e)
             [] e.op = "g.encode" -> ChkGEncode(e)
             [] e.op = "g.decode" -> ChkGDecode(e)
             [] e.op = "g.affine_new" -> ChkGAffineNew(e)
+            [] e.op = "gt.one" -> ChkGtOne(e)
+            [] e.op = "gt.mul" -> ChkGtMul(e)
+            [] e.op = "gt.eq" -> ChkGtEq(e)
+            [] e.op = "gt.pow" -> ChkGtPow(e)
+            [] e.op = "gt.inv" -> ChkGtInv(e)
+            [] e.op = "gt.laws" -> ChkGtLaws(e)
+            [] e.op = "pair" -> ChkPair(e)
+            [] e.op = "pair.laws" -> ChkPairLaws(e)
+            [] e.op = "prep.reuse" -> ChkPrepReuse(e)
 \* a panic or a hang of the code under test is never allowed; an unknown event is a tooling error and is reported too
 Verdict(e) == IF ~Known(e) THEN "unknown-op" ELSE IF e.panic THEN "panic" ELSE IF Chk(e) THEN "ok" ELSE "mismatch"
-Init == l = 1 /\ bad = <<>>
-Next == /\ l <= Len(Rec)
-        /\ l' = l + 1
-        /\ LET v == Verdict(Rec[l])
-           IN bad' = IF v = "ok" \/ Len(bad) >= 200 THEN bad ELSE Append(bad, [seq |-> Rec[l].seq, op |-> Rec[l].op, why |-> v])
-Done == l = Len(Rec) + 1 => PrintT(<<"DONE", ToJson([n |-> Len(Rec), consumed |-> l - 1, bad |-> bad])>>)
+Init == tpos = 1 /\ tbad = <<>>
+Next == /\ tpos <= Len(Rec)
+        /\ tpos' = tpos + 1
+        /\ LET v == Verdict(Rec[tpos])
+           IN tbad' = IF v = "ok" \/ Len(tbad) >= 200 THEN tbad
+                      ELSE Append(tbad, [seq |-> Rec[tpos].seq, op |-> Rec[tpos].op, why |-> v])
+Done == tpos = Len(Rec) + 1 => PrintT(<<"DONE", ToJson([n |-> Len(Rec), consumed |-> tpos - 1, bad |-> tbad])>>)
 =============================================================================
